@@ -55,6 +55,9 @@ pub struct Check {
     extra: Mutex<Map<String, Value>>,
     assumptions: Mutex<Vec<String>>,
     pub max_samples: usize,
+    /// the subject is inherently randomised (liblinear's rand(), hash order): a violation that was
+    /// observed on the real code is reported even if a re-execution does not reproduce it
+    pub randomised: std::sync::atomic::AtomicBool,
 }
 
 static VERDICT_FD: std::sync::atomic::AtomicI32 = std::sync::atomic::AtomicI32::new(1);
@@ -167,6 +170,7 @@ impl Check {
             extra: Mutex::new(Map::new()),
             assumptions: Mutex::new(vec![]),
             max_samples: 8,
+            randomised: std::sync::atomic::AtomicBool::new(false),
         }
     }
 
@@ -303,10 +307,13 @@ impl Check {
             let noreplay = v.case["noreplay"] == true;
             match if noreplay { Ok(Some((sig.clone(), String::new()))) } else { guard(|| replay(&v.case)) } {
                 Ok(Some((s2, _))) if &s2 == sig || format!("{s2}{PRECOND_SUFFIX}") == *sig => {}
-                Ok(other) => machinery_error(&format!(
-                    "replay of violation [{sig}] diverged: got {:?}",
-                    other.map(|x| x.0)
-                )),
+                Ok(other) => {
+                    if self.randomised.load(Ordering::Relaxed) {
+                        lines.push(format!("  note: [{sig}] was observed in this run but not reproduced by re-execution (randomised subject); reported as observed"));
+                    } else {
+                        machinery_error(&format!("replay of violation [{sig}] diverged: got {:?}", other.map(|x| x.0)))
+                    }
+                }
                 Err(p) => machinery_error(&format!("replay of violation [{sig}] panicked in the harness: {p}")),
             }
             let path = if c18.is_some() { format!("{VERIF}/replays/C18-{}-{:016x}.json", self.id, fnv(sig)) } else { format!("{VERIF}/replays/{}-{:016x}.json", self.id, fnv(sig)) };
